@@ -360,7 +360,9 @@ def conv_or_raise(v):
     return RAISE if v is RAISE or v == RAISE else ("exact", conv(v))
 
 
-# strings-only functions: split / words / lines / join over every short string of a separator alphabet
+# strings-only functions: split / words / lines / join over every short string of a separator alphabet (every ASCII
+# whitespace / line-ending character that the functions could treat specially, two letters, the separator)
+STRING_ALPHA = ["a", "b", ",", " ", "\n", "\r", "\t"]
 def string_forms(s):
     lit = json.dumps(s, ensure_ascii=False)
     out = []
@@ -395,7 +397,7 @@ def sequences(kind, maxlen):
 
 def bounds(tier):
     return {"kinds": list(KINDS), "max_len": 4 if tier == "quick" else 5, "alphabets": {k: [str(x) for x in (v or ["1..n"])] for k, v in KINDS.items()},
-            "string_fn_alphabet": ["a", "b", ",", " ", "\\n"], "string_fn_max_len": 5 if tier == "quick" else 6}
+            "string_fn_alphabet": [repr(c)[1:-1] for c in STRING_ALPHA], "string_fn_max_len": 4 if tier == "quick" else 5}
 
 
 def cases(tier, shard, nshards):
@@ -419,9 +421,9 @@ def cases(tier, shard, nshards):
                     continue
                 prog = "xx_ := %s; rr_ := (%s); [rr_, %s]" % (S, src, same)
                 yield Case(prog, {"fn": name, "kind": kind, "n": len(xs), "exp": exp if exp == RAISE else list(exp), "held": True})
-    smax = 5 if tier == "quick" else 6
+    smax = 4 if tier == "quick" else 5
     for L in range(0, smax + 1):
-        for t in itertools.product(["a", "b", ",", " ", "\n"], repeat=L):
+        for t in itertools.product(STRING_ALPHA, repeat=L):
             cnt += 1
             if cnt % nshards != shard:
                 continue
